@@ -42,10 +42,12 @@ TABLE = {
             ('OpyVerif.Proofs.Accept', 'Opy', r'accept_private|accept_pair'),
             ('OpyVerif.Generated.Accepts', 'Opy.Gen', r'acceptSites_ok')],
     'C08': [('OpyVerif.Proofs.C08ops', 'Opy.PNode', None), ('OpyVerif.Proofs.C08grow', 'Opy.PNode', None),
-            ('OpyVerif.Generated.Constants', 'Opy.Gen', r'nArgs_')],
+            ('OpyVerif.Generated.Constants', 'Opy.Gen', r'nArgs_'),
+            ('OpyVerif.Proofs.HeapCode', 'Opy', None), ('OpyVerif.Generated.HeapOps', 'Opy.Gen', None)],
     'C09': [('OpyVerif.Proofs.C09', 'Opy.PNode', None), ('OpyVerif.Proofs.C09repro', 'Opy.PNode', None),
             ('OpyVerif.Proofs.ReproProg', 'Opy', None), ('OpyVerif.Proofs.ReproCode', 'Opy', None), ('OpyVerif.Generated.Repro', 'Opy.Gen', None),
-            ('OpyVerif.Proofs.SelectProg', 'Opy', r'tournProg'), ('OpyVerif.Generated.Select', 'Opy.Gen', r'tournProg_eq')],
+            ('OpyVerif.Proofs.SelectProg', 'Opy', r'tournProg'), ('OpyVerif.Generated.Select', 'Opy.Gen', r'tournProg_eq'),
+            ('OpyVerif.Proofs.Heap', 'Opy', None), ('OpyVerif.Proofs.HeapCode', 'Opy', None), ('OpyVerif.Generated.HeapOps', 'Opy.Gen', None)],
     'C10': [('OpyVerif.Proofs.C10', 'Opy', None), ('OpyVerif.Proofs.C10real', 'Opy', None),
             ('OpyVerif.Proofs.OpTable', 'Opy', None),
             ('OpyVerif.Generated.Ops', 'Opy.Gen', r'opTable_eq|terminal_returns_value'),
